@@ -416,6 +416,44 @@ def expectRT : W → Option Frame
   | .raw t f sid p =>
     if t > 9 && t < 256 && f < 256 && sid < 2147483648 then some (.unknown ⟨t, f, p.length, sid⟩ p) else none
 
+/-- payload length of the frame a writer call produces (what `endWrite` compares with 2^24) -/
+def wPayloadLen : W → Nat
+  | .data _ _ d none => d.length
+  | .data _ _ d (some pd) => 1 + d.length + pd.length
+  | .headers _ _ _ pl pr frag => (if pl != 0 then 1 else 0) + (if pr != Prio.zero then 5 else 0) + frag.length + pl
+  | .priority _ _ => 5
+  | .rst _ _ => 4
+  | .settings ss => 6 * ss.length
+  | .settingsAck => 0
+  | .pushPromise _ _ _ pl frag => (if pl != 0 then 1 else 0) + 4 + frag.length + pl
+  | .ping _ d => d.length
+  | .goAway _ _ d => 8 + d.length
+  | .windowUpdate _ _ => 4
+  | .continuation _ _ frag => frag.length
+  | .raw _ _ _ p => p.length
+
+/-- writer calls with a zero-filled variable part of `n` bytes (entries for SETTINGS) and pad length `pl`,
+    used by the harness for payloads around the 2^24 limit without spelling the bytes out -/
+def mkBig (kind : String) (n pl : Nat) : Option W :=
+  let z := List.replicate n 0
+  if kind == "D" then some (.data 1 false z (if pl == 0 then none else some (List.replicate pl 0)))
+  else if kind == "H" then some (.headers 1 false true pl Prio.zero z)
+  else if kind == "U" then some (.pushPromise 1 2 true pl z)
+  else if kind == "C" then some (.continuation 1 true z)
+  else if kind == "G" then some (.goAway 1 0 z)
+  else if kind == "X" then some (.raw 10 0 1 z)
+  else if kind == "S" then some (.settings (List.replicate n (1, 0)))
+  else none
+
+/-- `wPayloadLen (mkBig kind n pl)` computed from the numbers alone -/
+def sizedLen (kind : String) (n pl : Nat) : Nat :=
+  if kind == "D" then (if pl == 0 then n else 1 + n + pl)
+  else if kind == "H" then (if pl != 0 then 1 else 0) + n + pl
+  else if kind == "U" then (if pl != 0 then 1 else 0) + 4 + n + pl
+  else if kind == "G" then 8 + n
+  else if kind == "S" then 6 * n
+  else n
+
 /-! ### Specification: RFC 7540 frame-level rules, as a flat table independent of the parsers -/
 
 inductive Class where
